@@ -1101,4 +1101,46 @@ theorem seats_view {g : Game} (h : GameInv g) :
   · rw [← ha, ← ho]; exact ⟨h.pair, h.pot_eq⟩
   · rw [← ha, ← ho]; exact ⟨h.pair.symm, by rw [h.pot_eq]; omega⟩
 
+/-! ## the menu at a choice node -/
+
+/-- `legal()` never hits its `assert!(options.len() > 0)` at a choice node: all-in is always on
+the menu; and every entry of the menu is accepted by `is_allowed` (used by C11) -/
+theorem legalChoice_spec {g : Game} (h : GameInv g) (hna : isEveryoneAlright g = false) :
+    Action.shove (toShove g) ∈ legalChoice g ∧ ∀ a ∈ legalChoice g, isAllowed g a = true := by
+  obtain ⟨_, hA, hO, hle, hk, hc, hr, hsv⟩ := choice_view h hna
+  have hms : mayShove g = true := by unfold mayShove; rw [hsv]; simpa using hk
+  constructor
+  · unfold legalChoice; simp [hms]
+  · intro a ha
+    unfold legalChoice at ha
+    simp only [List.mem_append] at ha
+    rcases ha with (((ha | ha) | ha) | ha) | ha
+    · by_cases hm : mayRaise g = true
+      · simp only [hm, if_true, List.mem_singleton] at ha; subst ha
+        rw [allowed_raise_iff h]
+        unfold mayRaise at hm; rw [hr, hsv] at hm
+        have : toCall g + max (toCall g) BB < (actor g).stack := by simpa using hm
+        exact ⟨hna, by omega, by omega⟩
+      · simp [hm] at ha
+    · simp only [hms, if_true, List.mem_singleton] at ha; subst ha
+      rw [allowed_shove_iff h]; exact ⟨hna, hsv⟩
+    · by_cases hm : mayCall g = true
+      · simp only [hm, if_true, List.mem_singleton] at ha; subst ha
+        rw [allowed_call_iff h]
+        unfold mayCall mayFold at hm; rw [hsv] at hm
+        simp only [Bool.and_eq_true, decide_eq_true_eq] at hm
+        exact ⟨hna, rfl, hm.1, hm.2⟩
+      · simp [hm] at ha
+    · by_cases hm : mayFold g = true
+      · simp only [hm, if_true, List.mem_singleton] at ha; subst ha
+        rw [allowed_fold_iff h]; unfold mayFold at hm; exact ⟨hna, by simpa using hm⟩
+      · simp [hm] at ha
+    · by_cases hm : mayCheck g = true
+      · simp only [hm, if_true, List.mem_singleton] at ha; subst ha
+        rw [allowed_check_iff h]; unfold mayCheck at hm
+        refine ⟨hna, ?_⟩
+        unfold toCall; have : effectiveStake g = (actor g).stake := by simpa using hm
+        omega
+      · simp [hm] at ha
+
 end RP.Game
